@@ -89,6 +89,19 @@ func attacker(rng *rand.Rand, g *world.Gen, h uint32, bs *world.BlockSpec, bi in
 			}
 		case 5:
 			bs.RawFirst = rng.Intn(2) == 0
+			// forged staking prices (a record only has to *name* a top holder):
+			// values that do not fit the database's signed integers, or that make
+			// every holding astronomically valuable
+			if bs.SPR != nil && rng.Intn(3) == 0 {
+				a := rng.Intn(30)
+				bs.SPR.Extreme = map[int]uint64{a: []uint64{1 << 63, 1<<64 - 1, 1<<63 - 1, 1 << 62}[rng.Intn(4)]}
+				if rng.Intn(2) == 0 {
+					bs.SPR.Extreme[1] = 1 // a dollar worth 1e-8: everything else is worth a fortune
+				}
+				if rng.Intn(2) == 0 {
+					bs.OPR = nil // no mining records: the staking prices are taken as they are
+				}
+			}
 			// a well-signed batch whose input names no asset type at all
 			amt := uint64(rng.Intn(3))
 			bs.Tx = append(bs.Tx, world.TxSpec{From: 10 + rng.Intn(g.P.Users), Minute: 10, Nonce: 7400000 + rng.Intn(1000000),
